@@ -65,6 +65,16 @@ def generate(run_seed, tier):
                              'terms': sorted(c.sample(names,
                                                       c.randint(1, len(names))))}]
         derived = ['dm0'] if c.random() < 0.6 else []
+        if derived and c.random() < 0.4:
+            # a derived parameter that is undefined (NaN) for part of the
+            # posterior, listed before the ordinary one
+            p0 = mcfg['mparams'][0]
+            mcfg['mderived'].insert(0, {
+                'name': 'dnan0', 'compute': False, 'terms': [p0['name']],
+                'log_above': p0['bounds'][0] + (p0['bounds'][1] -
+                                                p0['bounds'][0])
+                * c.uniform(0.3, 0.7)})
+            derived = ['dnan0', 'dm0']
         obs_cfg = None
     else:
         mcfg = R.gen_model_cfg(c, family=c.choice(
@@ -548,9 +558,15 @@ def execute(case, keep_text=False, after_fit=None):
                             viol('derived', 'length', '%s: %d entries for %d '
                                  'samples' % (d, t.size, rt.size))
                             continue
-                        if not np.allclose(t, rt, rtol=1e-12, atol=0):
+                        if not np.allclose(t, rt, rtol=1e-12, atol=0,
+                                           equal_nan=True):
                             viol('derived', 'trace', '%s: trace is not the derived '
                                  'value at each sample in sample order' % d)
+                            continue
+                        if not np.all(np.isfinite(rt)):
+                            # undefined for part of the posterior: the quantile rule
+                            # says nothing about its summaries
+                            out.bump('probes', 'derived_trace_with_nan')
                             continue
                         q16, q50, q84 = ref_quantiles(list(rt), W_.tolist(),
                                                       [0.16, 0.5, 0.84])
